@@ -23,6 +23,7 @@ import inspect
 import itertools
 import logging
 import math
+import re
 
 import numpy as np
 import torch
@@ -716,7 +717,7 @@ class HistoryRun:
         return [p.detach().clone() for p in root.parameters()]
 
     def fail(self, sub, symptom, hist, detail=""):
-        key = (sub, symptom[:40])
+        key = (sub, re.sub(r"[0-9][0-9.e+-]*", "#", symptom)[:60])  # one representative per (sub-check, symptom class) and cell
         if key in self.seen_fail:
             return
         self.seen_fail.add(key)
@@ -804,6 +805,7 @@ class HistoryRun:
                 sub = "readback" if hist[-1].startswith(("set:", "init_pub")) else "model"
                 self.fail(sub, f"value after {hist[-1].split(':')[0]} != expected err={msg}", hist,
                           f"got={got.reshape(-1)[:3].tolist()} want={np.asarray(want).reshape(-1)[:3].tolist()}")
+                self.resync(root, pm)  # continue from what the library actually holds: one defect is reported once, not along every extension
 
     def ulp_note(self, root, pm, raw=None, value=None):
         """characterise a rejection: does the library's own transform of the raw value overshoot the upper bound by <= 2 ulp?"""
